@@ -131,8 +131,13 @@ def order_family(perm, default_ns=False, two_files=False):
                             base=TypeRef(stamped.name.xml, 1, stamped), file=2)
         n0 = next(c for c in f0.components if c.kind == "complex" and c.name.xml == "Node")
         n1 = next(c for c in f1.components if c.kind == "complex" and c.name.xml == "Node")
+        e0 = next(c for c in f0.components if c.kind == "gelement" and c.name.xml == n0.name.xml)
+        e1 = next(c for c in f1.components if c.kind == "gelement" and c.name.xml == n1.name.xml)
+        # `both` has members of three namespaces: its own (first, second) and, by ref=, one of each twin's
         both = ComplexType(N("both"), Content(Group("sequence", 1, 1, [LocalElement(N("first"), TypeRef(n0.name.xml, 0, n0), 0, 1),
-                                                                       LocalElement(N("second"), TypeRef(n1.name.xml, 1, n1), 0, 1)]), []), file=2)
+                                                                       LocalElement(N("second"), TypeRef(n1.name.xml, 1, n1), 0, 1),
+                                                                       ElementRef(TypeRef(e1.name.xml, 1, e1), 0, 1),
+                                                                       ElementRef(TypeRef(e0.name.xml, 0, e0), 0, 2)]), []), file=2)
         f2.components = [cross, both] if perm[2] % 2 else [both, cross]
         files += [f1, f2]
         start = "f2.xsd"
@@ -207,6 +212,38 @@ def order_family_programs(r, n):
         out.append(("order:" + "".join(map(str, perm)) + ("+default-ns" if dn else "") + ("+twin" if tf is True else ("+mutual-twin" if tf else "")),
                     order_family(perm, dn, tf)))
     return out
+
+
+def _code(i):
+    """A digit-free word for a number (case conversion of digits is ambiguous)."""
+    return "k" + "".join("abcdefghij"[int(d)] for d in str(i))
+
+
+def many_colliding_namespaces(n=13, extend=False):
+    """One start file that imports n-1 others whose namespace URIs all end in the same path segment (…/2013/types, …/2014/types,
+    …): every one of them would get the same abbreviation, so n different prefixes / module names have to be handed out — more
+    than nine, so that the numbers appended to the abbreviation get a second digit."""
+    files = [_file(0, "http://zv.test/many/start/types", {0: "p0"})]
+    items = []
+    for i in range(1, n):
+        f = _file(i, f"http://zv.test/many/{2012 + i}/types", {i: f"p{i}"})
+        item = ComplexType(N("item"), Content(Group("sequence", 1, 1, [LocalElement(N("year", _code(i)), TypeRef("string"))]),
+                                              [Attr(N("rev"), TypeRef("int"), False)]), file=i)
+        f.components = [item]
+        files[0].prefixes[i] = f"p{i}"
+        files[0].imports.append(i)
+        files.append(f)
+        items.append(item)
+    holder = ComplexType(N("holder"), Content(Group("sequence", 1, 1, [
+        LocalElement(N("slot", _code(k)), TypeRef(it.name.xml, it.file, it), 0, 1) for k, it in enumerate(items)]), []), file=0)
+    comps = [holder]
+    if extend:
+        last = items[-1]
+        comps.append(ComplexType(N("extended"), Content(Group("sequence", 1, 1, [LocalElement(N("more"), TypeRef("string"))]), []),
+                                 base=TypeRef(last.name.xml, last.file, last), file=0))
+    comps.append(GlobalElement(N("holding"), type=TypeRef(holder.name.xml, 0, holder), file=0))
+    files[0].components = comps
+    return SchemaSet(files, "f0.xsd", None, {"many-colliding-namespaces", "member-type-foreign", "attributes"} | ({"extension", "extension-foreign"} if extend else set()))
 
 
 TABLES = {"occurrence_table": occurrence_table}
